@@ -382,7 +382,11 @@ def run_impl(impl, lines, env=None):
     out = []
     i = 0
     n = len(lines)
+    ncrash = 0
     while i < n:
+        if ncrash > 40:   # each crash restarts the harness on the remaining cases: stop a crash storm
+            out += ['CRASH (not run: more than 40 crashes before this case)'] * (n - len(out))
+            break
         rc, o, err = vlib.run_lines(impl, lines[i:], timeout=3000, env=env)
         if rc != 0 and o and o[-1] == '':
             o.pop()
@@ -398,6 +402,7 @@ def run_impl(impl, lines, env=None):
             m = [l for l in err.split('\n') if 'ERROR: AddressSanitizer' in l or 'runtime error' in l]
             sig = 'CRASH sanitizer: ' + (m[0].strip()[:200] if m else '')
         out.append(sig)
+        ncrash += 1
         i = bad + 1
     return out
 
@@ -524,8 +529,15 @@ def run(chk):
                 small = shrink_case(impl if vname == 'plain' else asan, model, line, differs)
             ra = run_impl(impl if vname == 'plain' else asan, [small])[0]
             rb = vlib.run_lines(model, [small])[1][0]
-            chk.finding('%s:%s' % (sigk, small), dict(case=small, impl=ra, model=rb, original=line, variant=vname),
-                        '%s: %s   [%s]' % ('; '.join(what), small, vname))
+            if sigk == 'doc':
+                msg = 'MIR.md %s this IR but the implementation answers "%s"' % ('allows' if ' | doc=ok' in rb else 'forbids', ra)
+            elif sigk == 'tie':
+                msg = 'implementation "%s" vs checker model "%s"' % (ra, rb.partition(' | doc=')[0])
+            else:
+                msg = '; '.join(what)
+            chk.finding('%s:%s' % (sigk, small), dict(case=small, impl=ra, model=rb, original=line, original_impl=a,
+                                                      original_model=b, variant=vname),
+                        '%s: %s   [%s]' % (msg, small, vname))
     if not r['ok'] and not chk.violations and not chk.known_hits:
         chk.proof_broken(r, searched='%d cases agreed between implementation, checker model and documentation rules' % len(lines))
 
